@@ -2655,7 +2655,9 @@ func (p *parser) parseLambdaExpr(allowTuple, allowCmd, allowRangeExpr bool) (x a
 			}
 			p.expect(token.RPAREN)
 		case token.LBRACE: // {
+			p.openLabelScope() // a lambda body is a function body: labels are local to it
 			body = p.parseBlockStmt()
+			p.closeLabelScope()
 		default:
 			rhs = []ast.Expr{p.parseExpr(false, false, false)}
 		}
